@@ -28,7 +28,8 @@ Inductive cmd :=
 | CPath (o : nat)
 | CTags (o : nat)
 | CSetTags (o : nat) (d c : byte)
-| CFree (o : nat).
+| CFree (o : nat)
+| CErrString (n : N).
 
 Inductive out :=
 | ORc (e : econf_err)
@@ -41,7 +42,7 @@ Inductive out :=
 | OBytes (e : econf_err) (b : str)
 | ODump (kf : keyfile)
 | OTags (d c : byte)
-| OParse (e : econf_err) (line : N)
+| OParse (e : econf_err) (line : N) (file : str)
 | OAll (l : list out)
 | ORead (e : econf_err) (valid : bool) (checked : list (str * bool)) (opened : list str)
 | OHist (e : econf_err) (files : list keyfile) (checked : list (str * bool)) (opened : list str)
@@ -161,8 +162,8 @@ Definition step (s : store) (c : cmd) : store * out :=
       match r_err r with
       | ECONF_SUCCESS =>
           let base := mkKF [] 0 [] 0 0 None jn py [] [] None in
-          (sput s o (keyfile_of_read base (abs_path path) dl cm r), OParse ECONF_SUCCESS (r_lines r))
-      | e => (sdel s o, OParse e (r_lines r))
+          (sput s o (keyfile_of_read base (abs_path path) dl cm r), OParse ECONF_SUCCESS (r_lines r) [])
+      | e => (sdel s o, OParse e (r_lines r) (abs_path path))
       end
   | CMerge dst a b =>
       match sget s a, sget s b with
@@ -170,6 +171,7 @@ Definition step (s : store) (c : cmd) : store * out :=
       | _, _ => (s, ORc ECONF_ERROR)
       end
   | CFree o => (sdel s o, ORc ECONF_SUCCESS)
+  | CErrString n => (s, OStr ECONF_SUCCESS (Some (err_string n)))
   | CReread dst src =>
       (* econf_writeFile, then econf_readFile of that file with the object's own tags *)
       match sget s src with
@@ -178,8 +180,8 @@ Definition step (s : store) (c : cmd) : store * out :=
           match r_err r with
           | ECONF_SUCCESS =>
               (sput s dst (keyfile_of_read new_empty (bs "/_out/w.conf") [kf_delim kf] [kf_comment kf] r),
-               OParse ECONF_SUCCESS (r_lines r))
-          | e => (sdel s dst, OParse e (r_lines r))
+               OParse ECONF_SUCCESS (r_lines r) [])
+          | e => (sdel s dst, OParse e (r_lines r) (bs "/_out/w.conf"))
           end
       | None => (s, ONoObj)
       end
